@@ -71,10 +71,20 @@ func (s *Sim) LockHook(kind int, lock any, site uint32) {
 	}
 }
 
+// lockAddr identifies a lock by the address of the mutex itself: the
+// instrumenter passes &x for a statement x.Lock(), which is a pointer to a
+// pointer when x is a *sync.Mutex variable (whose own address, often a stack
+// slot, says nothing about the mutex).
 func lockAddr(lock any) uintptr {
 	v := reflect.ValueOf(lock)
 	if v.Kind() != reflect.Pointer || v.IsNil() {
 		return 0
+	}
+	for v.Elem().Kind() == reflect.Pointer {
+		v = v.Elem()
+		if v.IsNil() {
+			return 0
+		}
 	}
 	return v.Pointer()
 }
